@@ -142,9 +142,15 @@ def _restart_child():
 
 
 # ---------------------------------------------------------------- replay files
+def replay_dir():
+    d = os.environ.get("VERIF_REPLAY_DIR") or os.path.join(VERIF, "replays")
+    os.makedirs(d, exist_ok=True)
+    return d
+
+
 def write_replay(prop, seed, run, steps, violation, cfg=None, extra=None):
-    os.makedirs(os.path.join(VERIF, "replays"), exist_ok=True)
-    path = os.path.join(VERIF, "replays", f"{prop}-{seed}-{run}.json")
+    rdir = replay_dir()
+    path = os.path.join(rdir, f"{prop}-{seed}-{run}.json")
     doc = {
         "property": prop, "seed": seed, "run": run,
         "python": sys.version.split()[0],
@@ -420,6 +426,8 @@ def build_history_evidence(prop, tier, seed, results, viol, new_viol, restart_ch
 
 
 def write_evidence(prop, evidence):
+    if os.environ.get("VERIF_NO_EVIDENCE") == "1":  # self-tests against scratch trees
+        return None
     os.makedirs(os.path.join(VERIF, "evidence"), exist_ok=True)
     path = os.path.join(VERIF, "evidence", f"{prop}.json")
     with open(path, "w") as f:
